@@ -104,6 +104,16 @@ func (s *State) callFunc(fn *ssa.Function, args []Value, where string, closure .
 			}
 		}
 		e := LogEntry{Callee: shortFn(fn), Args: args, Arr: &ArrZero{W: 8}, Off: Const(64, 0), N: Const(64, 0), RetN: Const(64, 0), Err: s.zeroValue(errorType())}
+		// the bytes of the first []byte argument at the time of the call (logByte / logN / logBytesAre)
+		for _, a := range args {
+			if p, ok := a.(*SliceV); ok && p.object() != nil {
+				if so, isS := sortOf(p.Elem); isS && so.Kind == KBV && so.W == 8 {
+					e.Arr, e.Off, e.N = s.sliceArr(p), p.Off, p.Len
+					e.BufObj = p.object()
+					break
+				}
+			}
+		}
 		if len(res) > 0 {
 			if iv, ok := res[len(res)-1].(*IfaceV); ok {
 				e.Err = iv
